@@ -27,8 +27,9 @@ Compared
          difference -> ctx.correspondence_broken("valuevm-vs-evaluator", …)
   a generated program outside the fragment predicate or rejected by the real compiler
          -> ctx.correspondence_broken("compile-generator", …)
-A real-vs-evaluator difference is the business of checks/parts/evaldiff.py (C02 violation); here
-it is reported as well, through ctx.violation with the case as replay object, when (1) holds.
+A real-vs-evaluator difference is the business of checks/parts/evaldiff.py (C02 violation); here it
+shows up as (2) or (3).  level = 1: fragment F1 (straight-line), 2: F2 (+ && || loops print).
+Env COMPILETIE_RUN overrides the runner binary (used to try a model before installing it).
 """
 import concurrent.futures
 import os
